@@ -147,3 +147,76 @@ Theorem C02_aba_witness :
   let ts := repeat TW 6 ++ [TNewReader; TR 0 None; TR 0 None; TR 0 None] ++ [TJump 65534%Z] ++ repeat TW 6 ++ repeat (TR 0 None) 3 in
   In (ORet 0 RetFresh [1000; 2001]%Z) (snd (m_run (m_init c) ts)).
 Proof. vm_compute. tauto. Qed.
+
+(* ---------------------------------------------------------------------------------------------
+   What "every reordering that the Rust/C11 memory model permits" means in these theorems.  The
+   machine of Shm/Machine.v keeps a reader's view as two prefixes of the writer's log plus
+   per-location floors.  Shm/MachineGen.v defines the standard view-based semantics of
+   release/acquire (per-location timestamps, views cur <= acq, message views; the promise-free
+   fragment of Kang et al., POPL 2017, without RMWs and SC fences, which the protocol does not use)
+   and proves that the machine IS that semantics for a single-writer log:
+   - the reader of the machine is the reader program run over prefix views (by computation);
+   - the same program run over standard views takes the same steps: every load choice is enabled
+     in one iff it is in the other, loads return the same values, every snapshot() returns the
+     same result, whatever the writer appends between two accesses;
+   - every store of write() carries exactly the message view the standard semantics gives it, and
+     its release fence is the standard release fence.
+   So C02_RA / C03_monotone_RA quantify over exactly the executions of the standard semantics. *)
+From CB Require Import SeqlockFresh MachineGen.
+
+Theorem C02_reader_is_the_program : forall c L r ch,
+  r_step c L r ch =
+  match gr_step do_read r_fence c L (to_g r) ch with
+  | Some (r', it, ret) => Some (of_g r', it, ret)
+  | None => None
+  end.
+Proof. exact r_step_is_the_program. Qed.
+
+Theorem C02_loads_are_standard_loads : forall L v l o i,
+  (do_read L v l o (Some i) = None <-> g_read L (alpha L v) l o i = None) /\
+  (forall x j v', vwf v -> cell_ok v l -> do_read L v l o (Some i) = Some (x, j, v') ->
+     j = i /\ vwf v' /\ (forall l', cell_ok v l' -> cell_ok v' l') /\
+     exists t', g_read L (alpha L v) l o i = Some (x, t') /\ gteq t' (alpha L v')).
+Proof.
+  intros L v l o i. split; [apply do_read_enabled_iff|].
+  intros x j v' W Hok H. exact (do_read_is_standard_read L v l o i x j v' W Hok H).
+Qed.
+
+Theorem C02_reader_runs_are_standard_runs : forall c, (forall i, In i (c_r_order c) -> (i < c_cells c)%nat) ->
+  forall steps L r s, rel_pos (final_log L steps) -> (acq (g_view r) <= length L)%nat -> sim_ok c L r s ->
+  match gr_run do_read r_fence c L r steps, gr_run g_rd g_fence c L s steps with
+  | Some (L1, r', tr), Some (L2, s', tr') => L1 = L2 /\ tr = tr' /\ sim_ok c L1 r' s'
+  | None, None => True
+  | _, _ => False
+  end.
+Proof. exact reader_runs_are_standard_runs. Qed.
+
+Theorem C02_new_client_has_the_full_view : forall c L,
+  sim_ok c L (to_g (r_new c L))
+    (mkgr (mkg (prefix_view L (length L)) (prefix_view L (length L))) RIdle (repeat 0%Z (c_cells c)) 0%Z 0%nat []).
+Proof. exact new_reader_sim. Qed.
+
+Theorem C02_writer_accesses_are_standard : forall c w r k w' it,
+  (w_relview w <= length (w_log w))%nat -> w_step c w r k = (w', it) ->
+  (w_relview w' <= length (w_log w'))%nat /\
+  ( (w_log w' = w_log w /\ w_relview w' = w_relview w)
+    \/ (exists o, it = Some (mkti AFence LGen o 0) /\ w_log w' = w_log w /\
+          gweq (walpha (w_log w') (w_relview w')) (gw_fence (walpha (w_log w) (w_relview w)) o))
+    \/ (exists e o ak, it = Some (mkti ak (e_loc e) o (e_val e)) /\ w_log w' = w_log w ++ [e] /\ w_relview w' = w_relview w /\
+          geqv (mview (w_log w') (length (w_log w)) e)
+               (snd (gw_store (walpha (w_log w) (w_relview w)) (e_loc e) o (length (w_log w)))) /\
+          gweq (walpha (w_log w') (w_relview w'))
+               (fst (gw_store (walpha (w_log w) (w_relview w)) (e_loc e) o (length (w_log w))))) ).
+Proof. exact writer_step_is_standard. Qed.
+
+Theorem C02_published_views_are_never_revised : forall L x p e,
+  (e_rel e <= length L)%nat -> geqv (mview (L ++ x) p e) (mview L p e).
+Proof. exact mview_app. Qed.
+
+(* non-vacuity: one publication and one snapshot() under the configuration of the code *)
+Theorem C02_standard_run_example :
+  match gr_run do_read r_fence fixed_cfg demo_log0 (to_g (r_new fixed_cfg demo_log0)) demo_steps with
+  | Some (L, r, tr) => L = demo_log1 /\ g_cache r = rec_of 7 1 /\ last tr (None, None) = (Some (mkti ALoad LGen Acq 2%Z), Some RetFresh)
+  | None => False
+  end.
+Proof. exact demo_run_prefix_machine. Qed.
